@@ -183,6 +183,11 @@ func (c *SubscriptionManager) RemoveSubscriptionsForEntity(remoteEntity api.Enti
 
 		serverFeature := c.localDevice.FeatureByAddress(item.ServerFeature.Address())
 		clientFeature := remoteEntity.FeatureOfAddress(item.ClientFeature.Address().Feature)
+		if clientFeature == nil {
+			// the entity does not announce the feature any more, the event
+			// still has to name the feature the removed entry was about
+			clientFeature = item.ClientFeature
+		}
 		payload := api.EventPayload{
 			Ski:          remoteEntity.Device().Ski(),
 			EventType:    api.EventTypeSubscriptionChange,
